@@ -149,12 +149,13 @@ Print Assumptions C15_slashes_after_nonspace.
    NUL, no brace) and contains no comment in the Spec's sense (T0 begins the input, where a leading "//" would be
    one; after a tag it is not): the scanner model run on the body as a file (lexText up to each "{", lexLeftDelim,
    lexBeginTag, lexInsideTag / lexIdent on the command name, "}" -> lexRightDelim) returns an item list, and the
-   parser model (SoyFile: itemList, textOrTag, beginTag's special-character case, rawtext) run on it under the
+   parser model (SoyFile: itemList, textOrTag, beginTag's special-character and literal cases, rawtext) run on it under the
    entry point's own budget returns a list node whose children are all raw-text nodes and whose texts,
    concatenated, are  normalize T0 ++ char(c1) ++ normalize T1 ++ ... : each stretch normalised as a whole with
-   no flagged end, each command giving exactly its character ({nil}: nothing).  Stretches may be empty.
-   NOT covered (the remaining gap to the design's body_text_spec): {literal} blocks, and comments inside a body
-   that also contains tags (comments are covered for bodies without tags: C15_body_text_spec_partial). *)
+   no flagged end, each command giving exactly its character ({nil}: nothing), each literal block its text s
+   verbatim (lexLiteral with strings.Index; no normalisation).  Stretches may be empty.
+   NOT covered (the remaining gap to the design's body_text_spec): comments inside a body that also contains
+   tags (comments are covered for bodies without tags: C15_body_text_spec_partial), "{literal }" with spaces. *)
 Theorem C15_body_special_chars_spec : forall inlen lexq unq T0 rest,
   stretch_ok true T0 -> Forall seg_ok rest ->
   exists items pos nodes st,
@@ -177,12 +178,30 @@ Proof.
   intros inlen lexq unq name out Hin.
   destruct (C15_body_special_chars_spec inlen lexq unq [] [((name, out), [])]) as (items & pos & nodes & st & A & B & C & D).
   - split; [constructor|reflexivity].
-  - constructor; [|constructor]. split; [exact Hin|]. split; [constructor|reflexivity].
+  - constructor; [|constructor]. split; [left; exact Hin|]. split; [constructor|reflexivity].
   - assert (E : body_src [] [((name, out), [])] = [123] ++ name ++ [125]) by reflexivity. rewrite E in A.
     exists items, pos, nodes, st. split; [exact A|]. split; [exact B|]. split; [exact C|]. rewrite D. unfold body_out. cbn [rest_out].
     change (normalize false false []) with (@nil N). cbn [app]. apply app_nil_r.
 Qed.
 Print Assumptions C15_special_chars_exact.
+
+(* literal_exact: {literal}s{/literal} alone gives exactly s, whatever bytes s consists of (braces, comment
+   openers, line breaks, NUL), as long as "{/literal}" does not occur in s ++ "{/literal}" before the end *)
+Theorem C15_literal_exact : forall inlen lexq unq s, lit_closed s ->
+  exists items pos nodes st,
+    lex_items is_letter_tbl is_digit_tbl (lex_budget ([123] ++ lit_name s ++ [125])) false ([123] ++ lit_name s ++ [125]) = Ok items /\
+    po_result (soy_file inlen lexq unq items) = POk (NList pos nodes) st /\
+    Forall is_raw nodes /\ concat (map raw_text_of nodes) = s.
+Proof.
+  intros inlen lexq unq s Hcl.
+  destruct (C15_body_special_chars_spec inlen lexq unq [] [((lit_name s, s), [])]) as (items & pos & nodes & st & A & B & C & D).
+  - split; [constructor|reflexivity].
+  - constructor; [|constructor]. split; [right; split; [reflexivity|exact Hcl]|]. split; [constructor|reflexivity].
+  - assert (E : body_src [] [((lit_name s, s), [])] = [123] ++ lit_name s ++ [125]) by reflexivity. rewrite E in A.
+    exists items, pos, nodes, st. split; [exact A|]. split; [exact B|]. split; [exact C|]. rewrite D. unfold body_out. cbn [rest_out].
+    change (normalize false false []) with (@nil N). cbn [app]. apply app_nil_r.
+Qed.
+Print Assumptions C15_literal_exact.
 
 (* non-vacuity: the hypotheses hold of "see http://x y", and scanner + parser models, run by computation on a
    text with both kinds of comment, give the Spec's text *)
@@ -222,11 +241,12 @@ Proof. repeat split; vm_compute; reflexivity. Qed.
 (* a body with all seven commands, by computation: scanner and parser models give the Spec's text *)
 Definition c15_ex_body : bstr * list seg :=
   (b "a  ", [((b "sp", [32]), b "b" ++ [10] ++ b " c"); ((b "\n", [10]), []); ((b "lb", [123]), b "x/y http://z");
-             ((b "rb", [125]), []); ((b "nil", []), b " d"); ((b "\t", [9]), []); ((b "\r", [13]), b "e ")]).
+             ((b "rb", [125]), []); ((b "nil", []), b " d"); ((b "\t", [9]), []); ((b "\r", [13]), b "e ");
+             ((lit_name (b " {x} // /* " ++ [10]), b " {x} // /* " ++ [10]), b "f")]).
 Example C15_ex_body_cmds :
   stretch_ok true (fst c15_ex_body) /\ Forall seg_ok (snd c15_ex_body) /\
-  body_src (fst c15_ex_body) (snd c15_ex_body) = b "a  {sp}b" ++ [10] ++ b " c{\n}{lb}x/y http://z{rb}{nil} d{\t}{\r}e " /\
-  body_out (fst c15_ex_body) (snd c15_ex_body) = b "a   b c" ++ [10] ++ b "{x/y http://z} d" ++ [9; 13] ++ b "e " /\
+  body_src (fst c15_ex_body) (snd c15_ex_body) = b "a  {sp}b" ++ [10] ++ b " c{\n}{lb}x/y http://z{rb}{nil} d{\t}{\r}e {literal} {x} // /* " ++ [10] ++ b "{/literal}f" /\
+  body_out (fst c15_ex_body) (snd c15_ex_body) = b "a   b c" ++ [10] ++ b "{x/y http://z} d" ++ [9; 13] ++ b "e  {x} // /* " ++ [10] ++ b "f" /\
   match lex_items is_letter_tbl is_digit_tbl (lex_budget (body_src (fst c15_ex_body) (snd c15_ex_body))) false (body_src (fst c15_ex_body) (snd c15_ex_body)) with
   | Ok items =>
       match po_result (soy_file 0 (fun _ => []) (fun _ => None) items) with
@@ -242,7 +262,7 @@ Proof.
   split; [split; [apply Hplain; vm_compute; reflexivity|vm_compute; reflexivity]|].
   split.
   { apply Forall_forall. intros sg Hin. unfold c15_ex_body in Hin. cbn [snd In] in Hin.
-    repeat (destruct Hin as [<-|Hin]; [split; [vm_compute; auto 12|split; [apply Hplain; vm_compute; reflexivity|vm_compute; reflexivity]]|]).
+    repeat (destruct Hin as [<-|Hin]; [split; [first [solve [left; vm_compute; auto 12] | right; split; [reflexivity|intros r; vm_compute; reflexivity]]|split; [apply Hplain; vm_compute; reflexivity|vm_compute; reflexivity]]|]).
     contradiction. }
   split; [vm_compute; reflexivity|]. split; [vm_compute; reflexivity|]. vm_compute. reflexivity.
 Qed.
